@@ -160,7 +160,10 @@ class SparselyBin(Factory, Container):
 
     @inheritdoc(Container)
     def zero(self):
-        return SparselyBin(self.binWidth, self.quantity, self.value, self.nanflow.zero(), self.origin)
+        out = SparselyBin(self.binWidth, self.quantity, self.value, self.nanflow.zero(), self.origin)
+        # without a value template (container reloaded from JSON) the declared content type must be carried over
+        out.contentType = self.contentType
+        return out
 
     @inheritdoc(Container)
     def __add__(self, other):
@@ -182,6 +185,7 @@ class SparselyBin(Factory, Container):
                 self.origin,
             )
             out.entries = self.entries + other.entries
+            out.contentType = self.contentType
             out.bins = self.bins.copy()
             for i, v in other.bins.items():
                 if i in out.bins:
